@@ -3,6 +3,7 @@ import LoraVerif.Props.C05
 import LoraVerif.Lemmas.MacWFStep
 import LoraVerif.Lemmas.GhostC
 import LoraVerif.Lemmas.RefineC
+import LoraVerif.Lemmas.HistoryCSafe
 /-!
 # C07 — frames that are not accepted change nothing
 
@@ -1178,6 +1179,265 @@ example : (runC lcg m0C demoHistoryC).toOption.map
     (fun r => decide (LegalC none [.keep, .thin [true] false [] false] ((annotC lcg m0C demoHistoryC).zip r.2))) = some false := by
   decide +kernel
 
+/-! ### the converse over the extended histories (builder M) -/
+
+theorem evOkC_thin (k1 : List Bool) (b1 : Bool) (k2 : List Bool) (b2 : Bool) (ev : EvC) (h : evOkC ev = true) :
+    evOkC (thinEvC k1 b1 k2 b2 ev) = true := by
+  cases ev with
+  | base e =>
+    simp only [thinEvC, evOkC] at h ⊢
+    cases e <;> simp only [maskEv, evOk, Bool.and_eq_true] at h ⊢ <;> first | exact h | exact ⟨rxOk_mask _ _ h.1, rxOk_mask _ _ h.2⟩
+  | uplinkC cc data fport conf fault c1 rx1 c2 rx2 =>
+    simp only [thinEvC, evOkC, Bool.and_eq_true] at h ⊢
+    exact ⟨⟨⟨thinCs_ok _ _ h.1.1.1, rxOk_mask _ _ h.1.1.2⟩, thinCs_ok _ _ h.1.2⟩, rxOk_mask _ _ h.2⟩
+  | joinC cc fault c1 rx1 c2 rx2 =>
+    simp only [thinEvC, evOkC, Bool.and_eq_true] at h ⊢
+    exact ⟨⟨⟨thinCs_ok _ _ h.1.1.1, rxOk_mask _ _ h.1.1.2⟩, thinCs_ok _ _ h.1.2⟩, rxOk_mask _ _ h.2⟩
+
+/-- **the converse of `stepC_thin`**: if the THINNED event returns, the full one — with the rejected
+frames present — returns too, in the same state and random stream, with the same output up to the
+`NoUpdate` entries of the inserted frames.  From a well-formed state under a valid event (totality of
+the receive procedure: `cycleC_tot`); legality is judged with the output of the thinned step (same
+uplink built, which is all it reads) -/
+theorem stepC_unthin {σ} (g : Rng σ) (m m' : MacState) (rs rs' : σ) (gh : Gh) (hr : GhRel m gh) (hwf : MacWF m) (ev : EvC)
+    (hv : evOkC ev = true) (hva : validEvC m.region.id ev = true) (k1 : List Bool) (b1 : Bool) (k2 : List Bool) (b2 : Bool)
+    (out' : OutC) (h' : stepC g (m, rs) (thinEvC k1 b1 k2 b2 ev) = .ok ((m', rs'), out'))
+    (hl : LegalDelC gh (rxcMp m, ev) out' (.thin k1 b1 k2 b2)) :
+    ∃ out, stepC g (m, rs) ev = .ok ((m', rs'), out) ∧ strip out' = strip out := by
+  cases ev with
+  | base e =>
+    simp only [LegalDelC] at hl
+    simp only [evOkC] at hv
+    refine ⟨out', ?_, rfl⟩
+    simp only [thinEvC, stepC, step_mask_eq g m rs gh hr e hv b1 b2 hl] at h'
+    simpa only [stepC] using h'
+  | joinC cc fault c1 rx1 c2 rx2 =>
+    simp only [LegalDelC] at hl
+    refine ⟨out', ?_, rfl⟩
+    simp only [thinEvC, stepC] at h' ⊢
+    cases hj : macJoinOtaa g m rs with
+    | error e => rw [hj] at h'; cases h'
+    | ok r =>
+      obtain ⟨jo, m1, rs1⟩ := r
+      obtain ⟨dr, tx, region', pw, r1, r2, _, _, hm1, _, _⟩ := macJoinOtaa_ok g m rs rs1 jo m1 hj
+      have hst1 : m1.st = .otaa { devNonce := (draw g rs).1 % 65536 } := by rw [hm1]
+      rw [hj] at h'
+      simp only [bind, Except.bind] at h' ⊢
+      rw [cycleC_thin_otaa cc m1 _ hst1 fault c1 _ rx1 c2 _ rx2 _ _ b1 b2 hl.1 hl.2] at h'
+      exact h'
+  | uplinkC cc data fport conf fault c1 rx1 c2 rx2 =>
+    cases gh with
+    | none =>
+      refine ⟨out', ?_, rfl⟩
+      simp only [thinEvC, stepC, macSend_notJoined g m hr] at h' ⊢
+      exact h'
+    | some last =>
+      have hfull : ∃ r, stepC g (m, rs) (.uplinkC cc data fport conf fault c1 rx1 c2 rx2) = .ok r := by
+        simp only [validEvC, Bool.and_eq_true, Bool.or_eq_true, bne_iff_ne, ne_eq, List.isEmpty_iff, decide_eq_true_eq] at hva
+        obtain ⟨⟨⟨⟨⟨h0, hlen⟩, hc1⟩, hr1⟩, hc2⟩, hr2⟩ := hva
+        simp only [thinEvC, stepC] at h' ⊢
+        obtain ⟨⟨o, m1, rs1⟩, hsend, hk⟩ := Except.bind_eq_ok h'
+        rw [hsend]; simp only [bind, Except.bind]
+        cases o with
+        | none => exact ⟨_, rfl⟩
+        | some o =>
+          have hk1 : Keeps m m1 := (macSend_safe g m data fport conf rs hwf
+            (fun e => by rcases h0 with h0 | h0; exact absurd e h0; exact h0) hlen).elim hsend
+          obtain ⟨⟨fin, hd, m2⟩, hcy, _⟩ := cycleC_tot cc m1 fault c1 c2 rx1 rx2 o.tx.rx1.maxPayload.toNat o.tx.rx2.maxPayload.toNat
+            hk1.1 hc1 hr1 hc2 hr2
+          simp only [hcy]
+          cases fin <;> exact ⟨_, rfl⟩
+      obtain ⟨⟨⟨mF, rsF⟩, out⟩, hfull⟩ := hfull
+      obtain ⟨s, hst, rfl, hlo⟩ := hr
+      obtain ⟨so, m1, hsend, _, _, _, _, hout, _⟩ :=
+        stepC_uplinkC_joined g m mF rs rsF s hst hlo cc data fport conf fault c1 rx1 c2 rx2 hv out hfull
+      have hv' := evOkC_thin k1 b1 k2 b2 _ hv
+      simp only [thinEvC] at hv' h'
+      obtain ⟨so', m1', hsend', _, _, _, _, hout', _⟩ :=
+        stepC_uplinkC_joined g m m' rs rs' s hst hlo cc data fport conf fault _ _ _ _ hv' out' h'
+      rw [hsend] at hsend'
+      simp only [Except.ok.injEq, Prod.mk.injEq, Option.some.injEq] at hsend'
+      obtain ⟨rfl, _, _⟩ := hsend'
+      have hlF : LegalDelC (some s.fcntDown) (rxcMp m, .uplinkC cc data fport conf fault c1 rx1 c2 rx2) out (.thin k1 b1 k2 b2) := by
+        rw [hout'] at hl
+        rw [hout]
+        simpa only [LegalDelC] using hl
+      obtain ⟨out2, hstep2, hstrip⟩ := stepC_thin g m mF rs rsF (some s.fcntDown) ⟨s, hst, rfl, hlo⟩ _ hv out hfull k1 b1 k2 b2 hlF
+      simp only [thinEvC] at hstep2
+      rw [hstep2] at h'
+      simp only [Except.ok.injEq, Prod.mk.injEq] at h'
+      obtain ⟨⟨rfl, rfl⟩, rfl⟩ := h'
+      exact ⟨out, hfull, hstrip⟩
+
+/-- a rejected Class C reception between uplinks returns in every well-formed state -/
+theorem stepC_rxc_returns {σ} (g : Rng σ) (m : MacState) (rs : σ) (v : RxView) (snr : Int) (mp : Nat) (hwf : MacWF m)
+    (hv : viewWF v = true) : ∃ m' out, stepC g (m, rs) (.base (.rxc v snr mp)) = .ok ((m', rs), out) := by
+  obtain ⟨m', o, hs⟩ := step_rxc_returns g m rs v snr mp hwf hv
+  exact ⟨m', { out := o }, by simp only [stepC, hs, bind, Except.bind, pure, Except.pure]⟩
+
+/-- the annotated trace of the FULL history, rebuilt from the run of the THINNED one: a kept or thinned
+event carries the RXC payload limit and the output of its counterpart in the thinned run (same state
+before it, same uplink built — which is all `LegalDelC` and the tracker read); a dropped Class C
+reception between uplinks is judged from the tracker alone, its annotation and output play no part -/
+def fillC : List DelC → List EvC → List (EvL × OutC) → List (EvL × OutC)
+  | .drop :: ds, ev :: evs, t => ((0, ev), { out := .done }) :: fillC ds evs t
+  | .keep :: ds, ev :: evs, x :: t => ((x.1.1, ev), x.2) :: fillC ds evs t
+  | .thin _ _ _ _ :: ds, ev :: evs, x :: t => ((x.1.1, ev), x.2) :: fillC ds evs t
+  | _, _, _ => []
+
+theorem ghNextC_out (gh : Gh) (e : EvL) (o o' : OutC) (h : o'.out = o.out) : ghNextC gh e o' = ghNextC gh e o := by
+  unfold ghNextC
+  rw [h]
+
+theorem thinEvsC_nil (evs : List EvC) : thinEvsC [] evs = evs := by cases evs <;> rfl
+theorem thinOutsC_nil (os : List OutC) : thinOutsC [] os = os := by cases os <;> rfl
+
+/-- **C07 over every extended history, the converse: rejected frames can be INSERTED anywhere.**  If the
+thinned extended history runs, so does the history with the rejected frames present — between
+uplinks, on the RXC parameters before RX1 / before RX2 inside a receive procedure, in RX1 / RX2 of an
+uplink or a join procedure, each judged by the reference under the counter it holds at that very
+point — to the SAME final state and random stream, with the same outputs at the events of the thinned
+history up to the `NoUpdate` entries of the inserted frames.  From any well-formed state under valid
+events.  Together with `historyC_rejected_invisible`: the two runs of the pair exist together and
+agree.  (Legality is stated on `fillC`, the annotated trace of the full history rebuilt from the run
+that is GIVEN — the thinned one: per kept / thinned event the RXC payload limit of the state before it
+and the uplink built there, which is all that legality and the tracker read.) -/
+theorem historyC_rejected_insertable {σ} (g : Rng σ) (m : MacState) (rs : σ) (gh : Gh) (hr : GhRel m gh) (hwf : MacWF m)
+    (evs : List EvC) (hv : ∀ ev ∈ evs, evOkC ev = true ∧ validEvC m.region.id ev = true) (ds : List DelC)
+    (ms' : MacState × σ) (outs' : List OutC) (h : runC g (m, rs) (thinEvsC ds evs) = .ok (ms', outs'))
+    (hl : LegalC gh ds (fillC ds evs ((annotC g (m, rs) (thinEvsC ds evs)).zip outs'))) :
+    ∃ outs, runC g (m, rs) evs = .ok (ms', outs) ∧ outs'.map strip = (thinOutsC ds outs).map strip := by
+  induction evs generalizing m rs gh ds outs' with
+  | nil =>
+    have e : thinEvsC ds [] = [] := by cases ds with | nil => rfl | cons d ds => cases d <;> rfl
+    rw [e] at h
+    have : outs' = [] := by unfold runC at h; cases Except.pure_eq_ok h; rfl
+    subst this
+    refine ⟨[], h, ?_⟩
+    cases ds with | nil => rfl | cons d ds => cases d <;> rfl
+  | cons ev rest ih =>
+    have hve := hv ev List.mem_cons_self
+    cases ds with
+    | nil =>
+      rw [thinEvsC_nil] at h
+      exact ⟨outs', h, by rw [thinOutsC_nil]⟩
+    | cons d ds =>
+      cases d with
+      | keep =>
+        simp only [thinEvsC] at h hl
+        unfold runC at h
+        obtain ⟨⟨⟨m1, rs1⟩, o⟩, hstep, h⟩ := Except.bind_eq_ok h
+        obtain ⟨⟨ms2, os'⟩, hrest, h⟩ := Except.bind_eq_ok h
+        cases Except.pure_eq_ok h
+        rw [annotC_cons g (m, rs) (m1, rs1) ev _ o hstep, List.zip_cons_cons] at hl
+        simp only [fillC, LegalC] at hl
+        have hk : Keeps m m1 := (stepC_safe g m rs ev hwf hve.2).elim hstep
+        have hr1 := stepC_ghRel g m m1 rs rs1 ev o gh hr hve.1 hstep
+        obtain ⟨os, hos, hth⟩ := ih m1 rs1 _ hr1 hk.1
+          (fun e he => by rw [hk.2.1]; exact hv e (List.mem_cons_of_mem _ he)) ds os' hrest hl.2
+        refine ⟨o :: os, ?_, ?_⟩
+        · simp only [runC, hstep, hos, bind, Except.bind, pure, Except.pure]
+        · simp only [thinOutsC, List.map_cons, hth]
+      | thin k1 b1 k2 b2 =>
+        simp only [thinEvsC] at h hl
+        unfold runC at h
+        obtain ⟨⟨⟨m1, rs1⟩, o'⟩, hstep', h⟩ := Except.bind_eq_ok h
+        obtain ⟨⟨ms2, os'⟩, hrest, h⟩ := Except.bind_eq_ok h
+        cases Except.pure_eq_ok h
+        rw [annotC_cons g (m, rs) (m1, rs1) _ _ o' hstep', List.zip_cons_cons] at hl
+        simp only [fillC, LegalC] at hl
+        obtain ⟨o, hstep, hstrip⟩ := stepC_unthin g m m1 rs rs1 gh hr hwf ev hve.1 hve.2 k1 b1 k2 b2 o' hstep' hl.1
+        have hk : Keeps m m1 := (stepC_safe g m rs ev hwf hve.2).elim hstep
+        have hr1 := stepC_ghRel g m m1 rs rs1 ev o gh hr hve.1 hstep
+        rw [← ghNextC_out gh (rxcMp m, ev) o o' (show (strip o').out = (strip o).out from by rw [hstrip])] at hr1
+        obtain ⟨os, hos, hth⟩ := ih m1 rs1 _ hr1 hk.1
+          (fun e he => by rw [hk.2.1]; exact hv e (List.mem_cons_of_mem _ he)) ds os' hrest hl.2
+        refine ⟨o :: os, ?_, ?_⟩
+        · simp only [runC, hstep, hos, bind, Except.bind, pure, Except.pure]
+        · simp only [thinOutsC, List.map_cons, hth, hstrip]
+      | drop =>
+        simp only [thinEvsC] at h hl
+        simp only [fillC, LegalC] at hl
+        obtain ⟨hld, hlr⟩ := hl
+        cases ev with
+        | joinC cc fault c1 rx1 c2 rx2 => exact hld.elim
+        | uplinkC cc data fport conf fault c1 rx1 c2 rx2 => exact hld.elim
+        | base e =>
+          simp only [LegalDelC] at hld
+          cases e with
+          | rxc v snr mp =>
+            have hvw : viewWF v = true := by
+              have := hve.2; simpa [validEvC, validEv] using this
+            obtain ⟨m1, o, hstep⟩ := stepC_rxc_returns g m rs v snr mp hwf hvw
+            have hev : evOk (.rxc v snr mp) = true := by have := hve.1; simpa only [evOkC] using this
+            have e1 := (step_drop_eq g m m1 rs rs gh hr _ hev hld o.out (stepC_base g _ _ _ o hstep).1).1
+            rw [e1] at hstep
+            have hr1 := stepC_ghRel g m m rs rs _ o gh hr hve.1 hstep
+            have hgn : ghNextC gh (rxcMp m, .base (.rxc v snr mp)) o = ghNextC gh (0, .base (.rxc v snr mp)) { out := .done } := rfl
+            rw [hgn] at hr1
+            obtain ⟨os, hos, hth⟩ := ih m rs _ hr1 hwf (fun e he => hv e (List.mem_cons_of_mem _ he)) ds outs' h hlr
+            refine ⟨o :: os, ?_, by simp only [thinOutsC]; exact hth⟩
+            simp only [runC, hstep, hos, bind, Except.bind, pure, Except.pure]
+          | joinAbp da nwk app => exact hld.elim
+          | setAdr on => exact hld.elim
+          | setDr dr => exact hld.elim
+          | joinOtaa fault rx1 rx2 mp1 mp2 => exact hld.elim
+          | uplink data fport conf fault rx1 rx2 mp1 mp2 => exact hld.elim
+
+/-- **the converse on the async front-end, for EVERY script, both classes.**  A session `ops'` of the
+async front-end model returns; `ops` is a session from the same device state that hears, in addition,
+frames the reference rejects where they are heard (`abstractSessionC ops'` is `abstractSessionC ops`
+thinned by a legal script).  Then the extended history of `ops` runs to the final MAC state and
+generator state of `ops'`, with the same outputs up to `NoUpdate` entries, and the session `ops` itself
+either returns — in that MAC state and generator state, with those outputs call by call — or stops with
+one of the front-end's OWN failures (`Extra`: its timer arithmetic on the radio's timestamps; never a
+failure of the MAC). -/
+theorem asyncC_rejected_insertable {σ} (g : Rng σ) (cfg : DevCfg) (d : DevRun) (rs : σ) (gh : Gh) (hr : GhRel d.m gh) (hwf : MacWF d.m)
+    (ops ops' : List AsyncOp) (hv : ∀ op ∈ ops, op.allView viewOk = true ∧ op.valid d.m.region.id = true) (ds : List DelC)
+    (habs : abstractSessionC cfg ops' = thinEvsC ds (abstractSessionC cfg ops))
+    (obs' : List OpObs) (d2 : DevRun) (rs2 : σ) (h' : asyncOps g cfg d rs ops' = .ok (obs', d2, rs2)) :
+    ∃ outs', AllRel ObsRel obs' outs' ∧
+      (LegalC gh ds (fillC ds (abstractSessionC cfg ops) ((annotC g (d.m, rs) (abstractSessionC cfg ops')).zip outs')) →
+        ∃ outs, runC g (d.m, rs) (abstractSessionC cfg ops) = .ok ((d2.m, rs2), outs) ∧
+          outs'.map strip = (thinOutsC ds outs).map strip ∧
+          (match asyncOps g cfg d rs ops with
+           | .ok (obs, d1, rs1) => d1.m = d2.m ∧ rs1 = rs2 ∧ AllRel ObsRel obs outs
+           | .error e => Extra e)) := by
+  obtain ⟨outs', hrun', hobs'⟩ := asyncOps_runC g cfg d rs ops' obs' d2 rs2 h'
+  refine ⟨outs', hobs', fun hl => ?_⟩
+  rw [habs] at hrun' hl
+  have hvv : ∀ ev ∈ abstractSessionC cfg ops, evOkC ev = true ∧ validEvC d.m.region.id ev = true := by
+    intro ev hev
+    obtain ⟨op, hop, rfl⟩ := List.mem_map.mp hev
+    exact ⟨abstractOp_evOkC cfg op (hv op hop).1, abstractOp_valid cfg _ op (hv op hop).2⟩
+  obtain ⟨outs, hrun, hmap⟩ := historyC_rejected_insertable g d.m rs gh hr hwf _ hvv ds _ outs' hrun' hl
+  refine ⟨outs, hrun, hmap, ?_⟩
+  have hsim := asyncOps_sim g cfg d rs ops
+  unfold abstractSessionC at hrun
+  cases hx : asyncOps g cfg d rs ops with
+  | ok a =>
+    obtain ⟨obs, d1, rs1⟩ := a
+    obtain ⟨b, hb, hrel⟩ := hsim.elim_ok hx
+    rw [hrun] at hb
+    cases hb
+    exact ⟨hrel.m, hrel.rng, hrel.obs⟩
+  | error e =>
+    rw [hx] at hsim
+    rcases hsim with hX | hE
+    · exact hX
+    · rw [hrun] at hE; cases hE
+
+/-! non-vacuity of the converse on `demoHistoryC` / `demoScriptC`: the script is legal on the trace
+rebuilt from the THINNED run; inserting a frame the reference ACCEPTS is not -/
+example : MacWF m0C.1 := by decide
+example : ∀ ev ∈ demoHistoryC, validEvC .EU868 ev = true := by decide
+example : (runC lcg m0C (thinEvsC demoScriptC demoHistoryC)).toOption.map
+    (fun r => decide (LegalC none demoScriptC (fillC demoScriptC demoHistoryC ((annotC lcg m0C (thinEvsC demoScriptC demoHistoryC)).zip r.2))))
+    = some true := by decide +kernel
+example : (runC lcg m0C (thinEvsC [.keep, .thin [true] false [] false] demoHistoryC)).toOption.map
+    (fun r => decide (LegalC none [.keep, .thin [true] false [] false] (fillC [.keep, .thin [true] false [] false] demoHistoryC
+      ((annotC lcg m0C (thinEvsC [.keep, .thin [true] false [] false] demoHistoryC)).zip r.2)))) = some false := by decide +kernel
+
 /-! ### a frame heard by a JOINING Class C device (finding `C07-join-aborted-by-rxc-frame`, repaired)
 
 `Mac::handle_rxc` answers `Err(NotJoined)` while the device is joining, and `between_windows` used to
@@ -1230,4 +1490,7 @@ end C07
 #print axioms C07.stepC_thin
 #print axioms C07.historyC_rejected_invisible
 #print axioms C07.asyncC_rejected_invisible
+#print axioms C07.stepC_unthin
+#print axioms C07.historyC_rejected_insertable
+#print axioms C07.asyncC_rejected_insertable
 #print axioms C07.joinC_rxc_frames_invisible
